@@ -13,5 +13,5 @@ for _f in sorted(glob.glob(os.path.join(os.path.dirname(os.path.abspath(__file__
     _ns = {'__file__': _f}
     exec(open(_f).read(), _ns)
     if _ns.get('PROPS_ENTRY'): PROPS[os.path.basename(_f)[:-3]] = _ns['PROPS_ENTRY']
-HOOK_COMMITS = ['d6ca0bd', 'd91ee48', '12cd8cb', '967fdcb', '51b3fc8', '7a8ee2c']
+HOOK_COMMITS = ['d6ca0bd', 'd91ee48', '12cd8cb', '967fdcb', '51b3fc8', '7a8ee2c', 'e79ac33']
 NOT_YET = {}
